@@ -147,6 +147,12 @@ def next_index(draw, p, last, used_files):
         # bounded in time (<= 200 files ahead) so that low rates do not create thousands of candidate files
         return last + min(draw(st.sampled_from([1, 1, 2, 9, 10, 91, 100, 901])), max(1, 200 * C * n // d))
     if mode < 8:
+        if draw(st.integers(0, 3)) == 0:
+            # first sample of the next subdirectory
+            S_ = p["S"]
+            js = ((last * d) // n) // S_ + 1
+            k = M.boundary_index(js, n, d, S_) + draw(st.sampled_from([-1, 0, 0, 1]))
+            return k if k > last else last + 1
         j = ((last * d) // n) // C + draw(st.sampled_from([1, 1, 1, 2, 3, 61]))
         k = M.boundary_index(j, n, d, C) + draw(st.sampled_from([-1, 0, 0, 1]))
         return k if k > last else last + 1
@@ -217,7 +223,7 @@ def histories(draw, tier):
         b = draw(st.sampled_from(pts))
         if b < a:
             a, b = b, a
-        qk = draw(st.sampled_from(["read", "read", "ffill", "ffill", "cols", "colstr", "latest", "bounds", "fields", "single"]))
+        qk = draw(st.sampled_from(["read", "read", "ffill", "ffill", "cols", "colstr", "latest", "bounds", "fields", "single", "nocolumn"]))
         q = {"q": qk, "a": a, "b": b}
         if qk in ("cols",):
             q["columns"] = draw(st.lists(st.sampled_from(top), min_size=1, max_size=2, unique=True))
@@ -347,6 +353,11 @@ def run_case(case, visible_hook=None):
         if res.failures:
             return res
         readers.append(drf.DigitalMetadataReader(md))
+        # the files of an archive are old: give them an old mtime, so that clean-up paths for "old unreadable files"
+        # would act if a read ever took them
+        for dp, dn, fn in os.walk(md):
+            for f_ in fn:
+                os.utime(os.path.join(dp, f_), (946684800, 946684800))
         keys_all = sorted(model)
         for qi, q in enumerate(case["queries"]):
             res.evaluations += 1
@@ -383,6 +394,13 @@ def run_case(case, visible_hook=None):
                             nt = True
                     if gb != (keys_all[0], keys_all[-1]):
                         fail("bounds", "get_bounds %r expected %r" % (gb, (keys_all[0], keys_all[-1])))
+                elif q["q"] == "nocolumn":
+                    # a column that no sample has: an error is fine, damage to the stored samples is not (the
+                    # following queries read them back)
+                    try:
+                        r.read(a, b, columns="no_such_column")
+                    except Exception:
+                        pass
                 elif q["q"] == "fields":
                     gf = readers[-1].get_fields()  # a reader created after the first write
                     if sorted(gf) != sorted(sp["name"] for sp in specs):
